@@ -73,6 +73,16 @@ class Module:
                     and isinstance(node.targets[0], ast.Name):
                 self.assigns[node.targets[0].id] = node
                 self.assign_chain.setdefault(node.targets[0].id, []).append(node)
+            elif isinstance(node, ast.Assign) and len(node.targets) == 1 and isinstance(node.targets[0], (ast.Tuple, ast.List)) \
+                    and all(isinstance(e, ast.Name) for e in node.targets[0].elts):
+                # A, B, C = <sequence>: each name is bound to one item of the value
+                for k, e in enumerate(node.targets[0].elts):
+                    item = ast.Subscript(value=node.value, slice=ast.Constant(value=k), ctx=ast.Load())
+                    syn = ast.Assign(targets=[ast.Name(id=e.id, ctx=ast.Store())], value=item)
+                    ast.copy_location(syn, node)
+                    ast.fix_missing_locations(syn)
+                    self.assigns[e.id] = syn
+                    self.assign_chain.setdefault(e.id, []).append(syn)
             elif isinstance(node, ast.AugAssign) and isinstance(node.target, ast.Name) and node.target.id in self.assigns:
                 self.assign_chain[node.target.id].append(node)
         # numpy alias(es) used in this module
